@@ -28,8 +28,8 @@ ASSUMPTIONS = [
     'K4 (minmax-energy returns the sum-optimal path) tolerated only if method == minmax-energy, the path is sum-optimal and its maximum exceeds the bottleneck optimum',
     'NetworkXNoPath / NodeNotFound (or None for percolation) is accepted iff the oracle finds the target unreachable',
 ]
-N_CASES = {'quick': 280, 'thorough': 9000}
-BUDGET_S = {'quick': 230, 'thorough': 2600}
+N_CASES = {'quick': 280, 'thorough': 27000}
+BUDGET_S = {'quick': 230, 'thorough': 3600}
 K3 = 'K3-corner-moves-missing'
 K4 = 'K4-minmax-energy-dead-branch'
 METHODS = ['dijkstra', 'bellman-ford', 'minmax-energy', 'dijkstra-exp', 'simple']
